@@ -155,29 +155,31 @@ func NewTree() *BPTree {
 	return &BPTree{LastAddress: 0, keyPosMap: make(map[string]int64), enabledKeyPosMap: false}
 }
 
-var queue *Node
-
-func enqueue(node *Node) {
+// enqueue appends node to the queue that starts at head and returns the
+// (possibly new) head. The queue is linked through Node.Next; WriteNodes relies
+// on that link when it stores the address of the next node.
+func enqueue(head, node *Node) *Node {
 	var c *Node
 
-	if queue == nil {
-		queue = node
-		queue.Next = nil
+	if head == nil {
+		head = node
+		head.Next = nil
 	} else {
-		c = queue
+		c = head
 		for c.Next != nil {
 			c = c.Next
 		}
 		c.Next = node
 		node.Next = nil
 	}
+
+	return head
 }
 
-func dequeue() *Node {
-	n := queue
-	queue = queue.Next
-
-	return n
+// dequeue removes the first node of the queue that starts at head and returns
+// it together with the new head.
+func dequeue(head *Node) (*Node, *Node) {
+	return head, head.Next
 }
 
 // FindLeaf returns leaf at the given key.
@@ -324,12 +326,15 @@ func (t *BPTree) WriteNodes(rwMode RWMode, syncEnable bool, flag int) error {
 		return err
 	}
 
-	queue = nil
+	// The queue of the breadth-first walk is local: a package-level queue was
+	// shared by every tree of every DB in the process, so two databases
+	// rotating a segment at the same time corrupted each other's walk.
+	var queue *Node
 
-	enqueue(t.root)
+	queue = enqueue(queue, t.root)
 
 	for queue != nil {
-		n = dequeue()
+		n, queue = dequeue(queue)
 
 		_, err := t.WriteNode(n, -1, syncEnable, fd)
 		if err != nil {
@@ -340,7 +345,7 @@ func (t *BPTree) WriteNodes(rwMode RWMode, syncEnable bool, flag int) error {
 			if !n.isLeaf {
 				for i = 0; i <= n.KeysNum; i++ {
 					c, _ := n.pointers[i].(*Node)
-					enqueue(c)
+					queue = enqueue(queue, c)
 				}
 			}
 		}
